@@ -60,6 +60,7 @@ class AggWorld(object):
     self.emissions = 0
     self.nticks = 0
     self.maxint = self.settings['MAX_AGGREGATION_INTERVALS']
+    self.applying_at_feed = False
 
   # ---------------------------------------------------------------- set-up
   def install(self):
@@ -98,21 +99,35 @@ class AggWorld(object):
     self.errors = []
     # rule-file reloads: a reload legitimately clears every buffer (values not yet
     # emitted are dropped); from then on the new rules decide everything
-    rm = w.rules_mod.RuleManager
-    real_read = rm.read_rules
-
-    def read_rules():
-      before = rm.rules_last_read
-      real_read()
-      if rm.rules_last_read != before:
-        me.reference_reload()
-    rm.read_task.f = read_rules
-
-  def reference_reload(self):
+    # The reference follows the documented schedule on its own timer (the file is
+    # re-read every 10 s when it was modified) and applies a pending reload at the first
+    # input or emission strictly after that instant -- by then the daemon's reload, due at
+    # the same instant, has run as well.
     import os
-    path = os.path.join(os.environ['GRAPHITE_ROOT'], 'conf', 'aggregation-rules.conf')
-    with open(path, encoding='utf-8') as f:
-      self.rules = routeprops.parse_agg_rules(f.read())
+    self.rules_path = os.path.join(os.environ['GRAPHITE_ROOT'], 'conf', 'aggregation-rules.conf')
+    self.rules_mtime = os.path.getmtime(self.rules_path) if os.path.exists(self.rules_path) else 0.0
+    self.pending_reload = None
+    self.r.callLater(10.0, self.ref_rules_tick)
+
+  def ref_rules_tick(self):
+    import os
+    if os.path.exists(self.rules_path):
+      m = os.path.getmtime(self.rules_path)
+      if m > self.rules_mtime:
+        self.rules_mtime = m
+        with open(self.rules_path, encoding='utf-8') as f:
+          self.pending_reload = (self.r.seconds(), f.read())
+    self.r.callLater(10.0, self.ref_rules_tick)
+
+  def apply_pending_reload(self):
+    if self.pending_reload is not None and self.r.seconds() > self.pending_reload[0] - 1e-9:
+      t, text = self.pending_reload
+      if self.r.seconds() > t or self.applying_at_feed:
+        self.pending_reload = None
+        self.reference_reload(text)
+
+  def reference_reload(self, text):
+    self.rules = routeprops.parse_agg_rules(text)
     self.R.clear()
     self.emitted_n.clear()
     self.series_rule.clear()
@@ -163,6 +178,8 @@ class AggWorld(object):
     self.tick_series = None
 
   def on_generated(self, metric, datapoint):
+    self.applying_at_feed = False
+    self.apply_pending_reload()
     self.emissions += 1
     interval, v = datapoint
     rule = self.series_rule.get(metric)
@@ -211,6 +228,8 @@ class AggWorld(object):
 
   # ---------------------------------------------------------------- inputs
   def feed(self, name, ts, value):
+    self.applying_at_feed = True      # inputs arrive between advances: the daemon's timers
+    self.apply_pending_reload()       # due at this instant have all run
     self.fed_now = []
     nfwd = len(self.forwarded)
     self.ctx.log.add('in', name, ts, value)
